@@ -9,12 +9,13 @@ mod common;
 mod json;
 mod rec;
 mod thr_ops;
+mod timed;
 mod val;
 
 use common::*;
 
 fn all_families() -> Vec<Box<dyn Family>> {
-  vec![Box::new(c08::C08), Box::new(c18::C18), Box::new(c09::C09), Box::new(c12::C12), Box::new(thr_ops::C19Ops), Box::new(thr_ops::C19Subjects), Box::new(thr_ops::C11)]
+  vec![Box::new(c08::C08), Box::new(c18::C18), Box::new(c09::C09), Box::new(c12::C12), Box::new(thr_ops::C19Ops), Box::new(thr_ops::C19Subjects), Box::new(thr_ops::C11), Box::new(timed::C16), Box::new(timed::C15)]
 }
 
 fn spec_for(prop: &str) -> Option<CheckSpec> {
@@ -82,6 +83,30 @@ fn spec_for(prop: &str) -> Option<CheckSpec> {
         FamilySpec { fam: Box::new(thr_ops::C19Ops), quick_runs: 90_000, thorough_runs: 2_000_000 },
         FamilySpec { fam: Box::new(thr_ops::C19Subjects), quick_runs: 90_000, thorough_runs: 2_000_000 },
       ],
+      quick_cap_s: 60,
+      thorough_cap_s: 900,
+    }),
+    "C15" => Some(CheckSpec {
+      property: "C15",
+      level: "exploration",
+      rule: threaded_rule.to_string(),
+      assumptions: vec![
+        "worker = a thread the crate itself spawns (through the facade); the end instant is stamped inside the terminal callback / right after unsubscribe returned".into(),
+        "'at most one timer period': after the end instant a worker may finish the sleep it is in and begin at most one more".into(),
+      ],
+      families: vec![FamilySpec { fam: Box::new(timed::C15), quick_runs: 60_000, thorough_runs: 1_200_000 }],
+      quick_cap_s: 60,
+      thorough_cap_s: 900,
+    }),
+    "C16" => Some(CheckSpec {
+      property: "C16",
+      level: "exploration",
+      rule: threaded_rule.to_string(),
+      assumptions: vec![
+        "virtual clock: computation takes no time, time advances only when no task is runnable".into(),
+        "exact configuration: periods and gaps from a grid on which no two oracle-relevant instants coincide (workloads with ties are rejected); jitter configuration: sleeps return up to 30 ms late and the oracle is relaxed to lower bounds and order".into(),
+      ],
+      families: vec![FamilySpec { fam: Box::new(timed::C16), quick_runs: 80_000, thorough_runs: 1_600_000 }],
       quick_cap_s: 60,
       thorough_cap_s: 900,
     }),
